@@ -38,6 +38,7 @@ func (e *c15Err) Error() string { return fmt.Sprintf("verif: injected failure #%
 type c15Fetcher struct {
 	mode  string // ok | err
 	delay time.Duration
+	kind  int // err: which kind of error (plain, deadline, cancellation, network time-out)
 }
 
 var c15PubErr = errors.New("verif: injected public-ip failure")
@@ -47,6 +48,16 @@ func (f c15Fetcher) GetIP(ctx context.Context) (net.IP, error) {
 		time.Sleep(f.delay)
 	}
 	if f.mode == "err" {
+		// whatever KIND of error the lookup ends in — a cancellation or deadline included — the
+		// request does not fail because of it
+		switch f.kind % 4 {
+		case 1:
+			return nil, fmt.Errorf("public ip: %w", errors.Join(c15PubErr, context.DeadlineExceeded))
+		case 2:
+			return nil, fmt.Errorf("public ip: %w", errors.Join(c15PubErr, context.Canceled))
+		case 3:
+			return nil, &net.OpError{Op: "dial", Net: "tcp", Err: errors.Join(c15PubErr, os.ErrDeadlineExceeded)}
+		}
 		return nil, c15PubErr
 	}
 	return net.ParseIP("203.0.113.7"), nil
@@ -216,7 +227,7 @@ func c15Run(t *testing.T, c c15Case) c15Outcome {
 		defer func() { reversedns.LookupAddrFn = oldLookup }()
 		cache.Cache.Flush()
 
-		fetch := c15Fetcher{mode: c.Pub}
+		fetch := c15Fetcher{mode: c.Pub, kind: c.PubRank + c.NRuns + 2*c.NProbes}
 		if !c.Free {
 			fetch.delay = base + time.Duration(c.PubRank)*stepD - 500*time.Microsecond
 		}
